@@ -155,3 +155,13 @@ fn test_isqrt() {
         assert!(r * r <= n && n < (r + 1) * (r + 1));
     }
 }
+
+// Verification hooks (add-only; compiled only with `--cfg yamaquasi_verif`).
+#[cfg(yamaquasi_verif)]
+pub mod verif_hooks {
+    use super::*;
+
+    pub fn isqrt(n: u64) -> u64 {
+        super::isqrt(n)
+    }
+}
